@@ -292,18 +292,173 @@ def gen_exhaustive(depth, shard, nshards):
     alphabet = domref.exh_ops(reduced)
     cases = []
     skipped = 0
-    total = 0
+    seen = set()
     for idx, seq in enumerate(itertools.product(alphabet, repeat=depth)):
-        if idx % nshards != shard:
+        # shard by the FIRST operation so that sequences truncated to the same prefix meet in one shard and are run once
+        if (idx // (len(alphabet) ** (depth - 1))) % nshards != shard:
             continue
-        total += 1
         r = domref.exh_script(seq)
         if r is None:
             skipped += 1
             continue
         ops, nset, stopped = r
+        text = domref.script_text(ops[nset:])
+        if text in seen:
+            skipped += 1
+            continue
+        seen.add(text)
         cases.append(mk_case('x%d_%d' % (depth, idx), ops, quiet=nset, cls='exhaustive'))
     return cases, skipped, len(alphabet)
+
+
+# ---------------------------------------------------------------------------------------------------
+#  pinned special cases: one minimal script per defect / deviation found while building this check (notes/C13.md).
+#  They make every run exercise those operand classes deterministically (random scripts only reach them in their tail).
+# ---------------------------------------------------------------------------------------------------
+SPECIALS = {
+ 'self-append': '''newdoc=n0 ~ r 0
+cE=n1 n0 e
+app n1 n1''',
+ 'fragment-self-append-hang': '''newdoc=n0 ~ r 0
+cDF=n1 n0
+cE=n2 n0 e
+app n1 n2
+app n1 n1''',
+ 'substring-huge-count': '''newdoc=n0 ~ r 0
+cT=n1 n0 hello
+substringData n1 0 5000''',
+ 'clone-firstchild-leaf': '''newdoc=n0 ~ r 0
+bind=n1 n0 de
+cT=n2 n0 hello
+app n1 n2
+clone=n3 n2 0
+cE=n4 n0 x
+cC=n5 n0 y
+app n4 n5
+app n4 n3''',
+ 'rename-illegal-ns-attr': '''newdoc=n0 ~ r 0
+cANS=n1 n0 urn:u1 p:a
+rename=n2 n0 n1 urn:u1 a:''',
+ 'rename-illegal-owned-attr': '''newdoc=n0 ~ r 0
+bind=n1 n0 de
+setAttr n1 a v
+getAttrNode=n2 n1 a
+rename=n3 n0 n2 urn:u1 xml:a''',
+ 'setAttributeNode-own': '''newdoc=n0 ~ r 0
+bind=n1 n0 de
+setAttr n1 a v
+getAttrNode=n2 n1 a
+setAttrNode=n3 n1 n2''',
+ 'replaceWholeText-after-element': '''newdoc=n0 ~ r 0
+bind=n1 n0 de
+cE=n2 n0 b
+cT=n3 n0 T1
+app n2 n3
+app n1 n2
+cT=n4 n0 T2
+app n1 n4
+replaceWholeText=n5 n4 Z''',
+ 'wholeText-after-element': '''newdoc=n0 ~ r 0
+bind=n1 n0 de
+cE=n2 n0 b
+cT=n3 n0 T1
+app n2 n3
+app n1 n2
+cT=n4 n0 T2
+app n1 n4
+wholeText n4''',
+ 'attr-map-out-of-order': '''newdoc=n0 ~ r 0
+bind=n1 n0 de
+setAttr n1 p:a 1
+setAttrNS n1 urn:u2 b 2
+cANS=n2 n0 urn:u2 q:b
+setAttrNodeNS=n3 n1 n2
+setAttr n1 p:a 3''',
+ 'fragment-two-elements-into-document': '''newdoc=n0 ~ ~ 0
+cDF=n1 n0
+cE=n2 n0 a
+cE=n3 n0 b
+app n1 n2
+app n1 n3
+app n0 n1''',
+ 'document-replaceChild-fragment': '''newdoc=n0 ~ r 0
+bind=n1 n0 de
+cDF=n2 n0
+cE=n3 n0 a
+cE=n4 n0 b
+app n2 n3
+app n2 n4
+rep n0 n2 n1''',
+ 'document-replaceChild-self': '''newdoc=n0 ~ r 0
+bind=n1 n0 de
+rep n0 n1 n1''',
+ 'import-events': '''newdoc=n0 ~ r 0
+bind=n1 n0 de
+setUD n1 k1 7 1
+import=n2 n0 n1 0''',
+ 'adopt-events': '''newdoc=n0 ~ r 0
+bind=n1 n0 de
+cE=n2 n0 e
+setUD n2 k1 7 1
+adopt n0 n2''',
+ 'normalize-empty-text': '''newdoc=n0 ~ r 0
+bind=n1 n0 de
+cT=n2 n0 %
+app n1 n2
+normalize n1''',
+ 'normalize-attr': '''newdoc=n0 ~ r 0
+bind=n1 n0 de
+cA=n2 n0 a
+cT=n3 n0 x
+cT=n4 n0 y
+app n2 n3
+app n2 n4
+setAttrNode=n5 n1 n2
+normalize n1''',
+ 'move-docelement': '''newdoc=n0 ~ r 0
+bind=n1 n0 de
+cC=n2 n0 c
+app n0 n2
+app n0 n1''',
+ 'setAttributeNodeNS-own': '''newdoc=n0 ~ r 0
+bind=n1 n0 de
+setAttrNS n1 urn:u1 p:a v
+getAttrNodeNS=n2 n1 urn:u1 a
+setAttrNodeNS=n3 n1 n2''',
+ 'setTextContent-empty': '''newdoc=n0 ~ r 0
+bind=n1 n0 de
+setTC n1 %''',
+ 'setAttributeNS-prefixed': '''newdoc=n0 ~ r 0
+bind=n1 n0 de
+setAttrNS n1 urn:u1 p:a v
+getAttrNodeNS=n2 n1 urn:u1 a
+setAttrNS n1 urn:u1 q:a w''',
+ 'setAttributeNS-keeps-prefix': '''newdoc=n0 ~ r 0
+bind=n1 n0 de
+setAttrNS n1 urn:u1 p:a v
+setAttrNS n1 urn:u1 a w''',
+ 'rename-no-name-check': '''newdoc=n0 ~ r 0
+cE=n1 n0 e
+rename=n2 n0 n1 ~ 1a''',
+ 'xmlns-element': '''newdoc=n0 ~ r 0
+cENS=n1 n0 urn:u1 xmlns:a''',
+ 'xmlns-uri-other-name': '''newdoc=n0 ~ r 0
+cANS=n1 n0 http://www.w3.org/2000/xmlns/ a''',
+ 'setIdAttributeNode-foreign': '''newdoc=n0 ~ r 0
+bind=n1 n0 de
+setAttr n1 a v
+cA=n2 n0 a
+setIdNode n1 n2 1''',
+}
+
+
+def gen_specials():
+    cases = []
+    for name, text in SPECIALS.items():
+        ops = domref.parse_script(text)
+        full = _rebuild(ops)
+        cases.append(mk_case('sp_' + name, full if full is not None else ops, cls='special:' + name))
+    return cases
 
 
 # ---------------------------------------------------------------------------------------------------
@@ -319,7 +474,7 @@ def attach_observed_dump(binary, witness):
     """re-execute the witness case with a full dump after every operation and attach what the real library showed"""
     c = core.Case.from_json(witness['case'])
     c2 = _detailed(c, dump=1)
-    r = core.run_shard(binary, [c2], tag='c13w').get(c2.id)
+    r = core.run_shard(binary, [c2], tag='c13w', env=_env_for(binary)).get(c2.id)
     if r is None or not r.complete or r.crash:
         return
     dobs, _ = parse_obs(r.lines)
@@ -337,11 +492,17 @@ def run_shard(args):
                skipped=0, alphabet=0, exc_expected=0, states=set(), kind=kind, scripts=0)
     if kind == 'random':
         cases = gen_random(seed, shard, n, nops, tail_prob, chk)
+    elif kind == 'special':
+        cases = gen_specials()
     else:
         cases, out['skipped'], out['alphabet'] = gen_exhaustive(depth, shard, nshards)
     out['scripts'] = len(cases)
     tgen = time.time() - t0
-    recs = core.run_shard(binary, cases, tag='c13%s%d' % (kind[0], shard), per_case_timeout=30.0)
+    # a hang costs one batch time-out: keep batches small enough for that to stay around a minute
+    recs = {}
+    CH = 600 if kind != 'special' else 1      # special cases one per process: one of them is a known endless loop
+    for b in range(0, len(cases), CH):
+        recs.update(core.run_shard(binary, cases[b:b + CH], tag='c13%s%d' % (kind[0], shard), per_case_timeout=4.0, min_batch_timeout=45.0, env=_env_for(binary)))
     trun = time.time() - t0 - tgen
     suspects = []
 
@@ -386,7 +547,7 @@ def run_shard(args):
     # authoritative verdict for every suspect: one more batch with invariants + dump hash after EVERY operation
     if suspects:
         need = [x for x in suspects if int(x[0].opt.get('chk', 1)) != 1]
-        recs2 = core.run_shard(binary, [_detailed(c) for c, _ in need], tag='c13v%d' % shard, per_case_timeout=30.0) if need else {}
+        recs2 = core.run_shard(binary, [_detailed(c) for c, _ in need], tag='c13v%d' % shard, per_case_timeout=4.0, min_batch_timeout=45.0, env=_env_for(binary)) if need else {}
         for c, viol in suspects:
             r2 = recs2.get(c.id + '_d')
             if r2 is not None and r2.complete and not r2.crash and not r2.hang:
@@ -444,7 +605,7 @@ def shrink(binary, case_json, key, max_rounds=30):
                 break
             chunk = max(1, chunk // 2)
             continue
-        recs = core.run_cases(binary, [x[1] for x in cands], shards=1, tag='c13s')
+        recs = core.run_cases(binary, [x[1] for x in cands], shards=1, tag='c13s', env=_env_for(binary))
         hit = None
         for cand, cc in cands:
             r = recs.get(cc.id)
@@ -478,20 +639,49 @@ def shrink(binary, case_json, key, max_rounds=30):
 # ---------------------------------------------------------------------------------------------------
 TIERS = {
     #            random scripts, ops each, exhaustive depth
-    'quick': dict(nrandom=2000, nops=200, depth=2),
-    'thorough': dict(nrandom=12000, nops=1000, depth=3),
+    'quick': dict(nrandom=2000, nops=200, depth=2, chk=4),
+    'thorough': dict(nrandom=8000, nops=1000, depth=3, chk=10),
 }
+
+
+def snapshot_binary(binary, flavour='asan'):
+    """Private copy of the driver and of the library it loads.  The build cache is shared: another check may re-link
+    libxerces-c while this one is still running driver processes (seen: "file too short" / "invalid ELF header").
+    Returns (binary path, env for run_shard, directory to remove afterwards)."""
+    import shutil
+    d = os.path.join(core.SCRATCH_ROOT, 'c13bin-%d-%d' % (os.getpid(), int(time.time() * 1000) % 1000000))
+    os.makedirs(d, exist_ok=True)
+    lib = os.path.join(build.libdir(flavour), build.LIBNAME)
+    with build._Lock('b-' + flavour):
+        shutil.copy2(lib, os.path.join(d, build.LIBNAME))
+        b2 = os.path.join(d, os.path.basename(binary))
+        shutil.copy2(binary, b2)
+    return b2, d
+
+
+def _env_for(binary):
+    return {'LD_LIBRARY_PATH': os.path.dirname(binary)}
 
 
 def run(tier):
     ck = core.Check(PID, tier)
     cfg = TIERS.get(tier, TIERS['quick'])
-    binary = build.ensure('asan', parts=['domscript'])
+    binary0 = build.ensure('asan', parts=['domscript'])
+    binary, snapdir = snapshot_binary(binary0)
+    try:
+        return _run(ck, cfg, tier, binary)
+    finally:
+        import shutil
+        shutil.rmtree(snapdir, ignore_errors=True)
+
+
+def _run(ck, cfg, tier, binary):
     nsh = min(16, core.NCPU)
     jobs = []
     per = (cfg['nrandom'] + nsh - 1) // nsh
     for s in range(nsh):
-        jobs.append((binary, 'random', ck.seed, s, nsh, per, cfg['nops'], 0.06, 0))
+        jobs.append((binary, 'random', ck.seed, s, nsh, per, cfg['nops'], 0.06, 0, cfg['chk']))
+    jobs.append((binary, 'special', ck.seed, 0, 1, 0, 0, 0, 0))
     xsh = nsh if cfg['depth'] < 3 else nsh * 4
     for s in range(xsh):
         jobs.append((binary, 'exhaustive', ck.seed, s, xsh, 0, 0, 0, cfg['depth']))
